@@ -276,3 +276,93 @@ func extProdBound(params rlwe.Parameters, ct *rgsw.Ciphertext, rowNoise *big.Int
 
 // log2Bucket is a coarse outcome class for a noise magnitude.
 func log2Bucket(x *big.Int) int { return x.BitLen() }
+
+// ---------------------------------------------------------------------------------------------
+// harness-side RGSW encryption (used only where the library's own encryption is known to be off, so
+// that the evaluator can still be judged on well-formed inputs)
+
+// detRand is a small deterministic generator (splitmix64) for harness-built ciphertexts.
+type detRand struct{ x uint64 }
+
+func (d *detRand) next() uint64 {
+	d.x += 0x9E3779B97F4A7C15
+	z := d.x
+	z = (z ^ (z >> 30)) * 0xBF58476D1CE4E5B9
+	z = (z ^ (z >> 27)) * 0x94D049BB133111EB
+	return z ^ (z >> 31)
+}
+
+// buildRGSW writes a textbook RGSW encryption of g under s into ct (allocated by rgsw.NewCiphertext):
+//
+//	half 0, row (i,j): ( −a·s + e + P·w_ij·g , a )        half 1, row (i,j): ( −a·s + e , a + P·w_ij·g )
+//
+// with w_ij = 2^(j·pw2) on the Q-primes of RNS digit i and 0 elsewhere, a uniform, ‖e‖∞ ≤ 3, everything
+// stored in the NTT and Montgomery domains like the library does.
+func buildRGSW(params rlwe.Parameters, ct *rgsw.Ciphertext, s, g []int64, seed uint64) {
+	levelQ, levelP := ct.LevelQ(), ct.LevelP()
+	pw2 := ct.Value[0].BaseTwoDecomposition
+	n := params.N()
+	rnd := &detRand{seed}
+	pmod := big.NewInt(1)
+	if levelP >= 0 {
+		pmod = ref.Prod(params.RingP().ModuliChain()[:levelP+1])
+	}
+	type prime struct {
+		sub *ring.SubRing
+		isQ bool
+		k   int
+	}
+	var primes []prime
+	for k := 0; k <= levelQ; k++ {
+		primes = append(primes, prime{params.RingQ().SubRings[k], true, k})
+	}
+	for k := 0; k <= levelP; k++ {
+		primes = append(primes, prime{params.RingP().SubRings[k], false, k})
+	}
+	for u := 0; u < 2; u++ {
+		for i := range ct.Value[u].Value {
+			for j := range ct.Value[u].Value[i] {
+				row := ct.Value[u].Value[i][j]
+				// a: independent uniform residues are a uniform element of R_QP; e: one small integer polynomial
+				e := make([]int64, n)
+				for t := range e {
+					e[t] = int64(rnd.next()%7) - 3
+				}
+				for _, p := range primes {
+					q := p.sub.Modulus
+					a := make([]uint64, n)
+					for t := range a {
+						a[t] = rnd.next() % q
+					}
+					c0 := ref.NegacyclicMul(a, resPoly(s, q), q)
+					er := resPoly(e, q)
+					for t := range c0 {
+						c0[t] = ref.AddMod(ref.NegMod(c0[t], q), er[t], q)
+					}
+					c1 := a
+					if p.isQ && inGroup(p.k, i, levelP) {
+						f := ref.MulMod(ref.ModU(pmod, q), ref.PowMod(2, uint64(j*pw2), q), q)
+						gr := resPoly(g, q)
+						tgt := c0
+						if u == 1 {
+							tgt = c1
+						}
+						for t := range tgt {
+							tgt[t] = ref.AddMod(tgt[t], ref.MulMod(gr[t], f, q), q)
+						}
+					}
+					var d0, d1 []uint64
+					if p.isQ {
+						d0, d1 = row[0].Q.Coeffs[p.k], row[1].Q.Coeffs[p.k]
+					} else {
+						d0, d1 = row[0].P.Coeffs[p.k], row[1].P.Coeffs[p.k]
+					}
+					p.sub.NTT(c0, d0)
+					p.sub.MForm(d0, d0)
+					p.sub.NTT(c1, d1)
+					p.sub.MForm(d1, d1)
+				}
+			}
+		}
+	}
+}
